@@ -171,6 +171,9 @@ type WorkerResult struct {
 func refDigest(p *Program, ref Reference) string {
 	h := sha256.New()
 	for _, pkg := range p.Packages {
+		if t, fails := refFails(ref, pkg); fails {
+			fmt.Fprintf(h, "fails:%s\x00%s\x00", pkg, t)
+		}
 		for _, f := range ref[pkg] {
 			fmt.Fprintf(h, "%s\x00%d\x00", f.Path, len(f.Desc))
 			h.Write(f.Desc)
@@ -389,6 +392,13 @@ func runWorker(master uint64, worker, workers, execs, maxProgs int, budget float
 		}
 		writeMarker(-1, ExecCfg{})
 		ref, err := computeReference(p)
+		if err == nil {
+			for _, pkg := range p.Packages {
+				if _, fails := refFails(ref, pkg); fails {
+					stats.Probes["packages_whose_reference_fails"]++
+				}
+			}
+		}
 		if err != nil {
 			stats.ProgramsDiscarded++
 			stats.DiscardReasons[truncate(err.Error(), 160)]++
@@ -500,7 +510,13 @@ func runWorker(master uint64, worker, workers, execs, maxProgs int, budget float
 			}
 		} else {
 			for _, pkg := range p.Packages {
-				if form, file, detail := compareOutputs(ref[pkg], ref2[pkg]); form != "" {
+				form, file, detail := compareOutputs(ref[pkg], ref2[pkg])
+				if _, f1 := refFails(ref, pkg); form == "" {
+					if _, f2 := refFails(ref2, pkg); f1 != f2 {
+						form, detail = "error", fmt.Sprintf("the canonical compile failed in one of two runs only (first run failed: %v)", f1)
+					}
+				}
+				if form != "" {
 					rp := &Replay{Property: "C14", MasterSeed: master, ProgIndex: idx, ExecIndex: -1, Program: p.ToJSON(), Violation: &Violation{Class: "uncontrolled_nondeterminism", Form: form, Pkg: pkg, File: file, Detail: detail},
 						Note: "same program, same (identity) decisions, two executions in one process gave different bytes; replay is statistical (<=200 repetitions)"}
 					if !seenKeys[rp.Violation.Key()] {
